@@ -36,6 +36,15 @@ def _rmax_square_array(r):
     return rmax
 
 
+def _trapezoid(y, dx, axis):
+    """Trapezoidal rule; numpy >= 2 spells it trapezoid, older numpy only has trapz."""
+    func = getattr(np, 'trapezoid', None)
+    if func is None:
+        func = np.trapz
+
+    return func(y, dx=dx, axis=axis)
+
+
 def fit_plane(x, y, z):
     """Fit a plane to data.
 
@@ -264,10 +273,10 @@ def bandlimited_rms(r, psd, wllow=None, wlhigh=None, flow=None, fhigh=None):
     # prysm doesn't enforce the user to be "top left" or "lower left" origin,
     # abs makes sure we do things right no matter what
     dx = abs(pt2 - pt1)
-    reduced = np.trapz(work, dx=dx, axis=0)
+    reduced = _trapezoid(work, dx=dx, axis=0)
 
     if r.ndim == 2:
-        reduced = np.trapz(reduced, dx=dx, axis=0)
+        reduced = _trapezoid(reduced, dx=dx, axis=0)
 
     return np.sqrt(reduced)
 
